@@ -12,6 +12,24 @@ COMMON_NOTE = ("Trusted: Lean 4.33 kernel; axioms ⊆ {propext, Classical.choice
 
 # id -> (technique, level text, level note extra, design_ref)
 CHECKS = {
+    "C07": ("Lean 4 proof that each streaming transform (per-block kernel over the C01 block plan, appended by cwrite) "
+            "equals the whole-array transform for every gulp + differential correspondence on the raw output bytes + "
+            "NumPy whole-array oracle",
+            "Theorems rowLocal_stream (+ invert/mask/extract instances and row-kernel specs), downsample_stream (gulp "
+            "rounded to a multiple of tfactor ⇒ grouping commutes with block boundaries, remainder dropped), "
+            "subband_stream, bandStarts_spec, shape theorems, zerodmRow_sum over ℚ, gulp-independence corollaries.",
+            "Values are integers; reduction to the output depth is C04's cwrite; the float64 zero-DM arithmetic and its "
+            "cast are compared with the exact ℚ model to one quantum; kernels' index expressions are hand-modelled and "
+            "tied by correspondence on the output file bytes.", "§5 C07"),
+    "C08": ("Lean 4 proof over ℚ about header-update functions REGENERATED from the Python source on every run "
+            "(translator: every new_header/prep_outfile update dict of base.py, readers.py, block.py, timeseries.py) + "
+            "differential correspondence of real product headers against the generated functions + provenance oracle",
+            "Theorems tstart_<site> for all 15 streaming sites, shape/depth/dm fields, invert/extract label identities, "
+            "downsample/subband labels inside the span of their inputs with scaled spacing, frequency→channel index via "
+            "round-half-even (robust to |ε|<1/2, unlike truncation), no silently dropped update keys.",
+            "Floats enter as exact rationals; astropy Time arithmetic in mjd_after_nsamps is modelled as tstart + "
+            "n*tsamp/86400 and validated to 5 µs; translator is in the trusted base and cross-checked by the "
+            "correspondence run.", "§5 C08"),
     "C04": ("Lean 4 proof of sample encode/decode at every depth, cwrite width, chunked writes and the header+data "
             "write→read composition (on top of the C03 and C05 theorems) + byte-exact differential correspondence + "
             "read-back oracle over all (dtype, depth, format)",
